@@ -68,6 +68,10 @@ CHECKS = {
         'property-based round-trip testing: model -> {JSON, pickle, generated model source} -> reload -> structural + behavioural comparison; asjson() termination/dumpability on parse results, models and hand-built cyclic structures',
         'C13\'s full-language grammars with loader-sniffing texts (f{..}, backslash-e-[, {..}, @.., __class__), falsy directive values, single keywords and single rules, reloaded through three routes: same rules/directives/keywords and equal outcomes on derived inputs; asjson() of every parse result/model returns within 5 s and json.dumps accepts it; cycles render as references. Exploration.',
         'parser equality is observed on generated inputs; a constant whose value is None is not judged (indistinguishable from no literal in every serialised form)', 'DESIGN.md §3 C14'),
+    'C15': (
+        'property-based differential testing (four parsers): shipped bootstrap rules vs shipped bootstrap model vs compiled _tatsu.ebnf vs parser regenerated from it, on generated, hand-written and mutated grammar texts',
+        'Generated full-language grammar texts (with and without rule terminators), ~45 hand-written texts for alternative/deprecated syntax and prefix-of-literal words, the repository\'s grammar files, and 1-3-edit mutations of all of them: same accept/reject by the four parsers and equal grammar models (canonical structure + pretty text) on accept. Exploration.',
+        'model equality is structural over public fields plus pretty(); when all four raise the same foreign exception the case is left to C08', 'DESIGN.md §3 C15'),
     'C16': (
         'exhaustive enumeration of small rule graphs + Hypothesis-sampled larger graphs against my own left-call-graph / nullability / cycle analysis; fixed input battery under a recursion limit and watchdog',
         'All 420 one-rule graphs and all 1764 two-rule single-alternative graphs (exhaustive), plus sampled 2x2, 3-rule and 4-6-rule graphs: GrammarError with left recursion off iff a left-call cycle exists; is_lrec/is_memo exact off-cycle; every cycle guarded; battery of 15 inputs from every rule terminates. Exploration with an exhaustive sub-space.',
